@@ -566,6 +566,8 @@ def coq_case(case, obs):
     lens = relay_lens(obs)
     if len(lens) != len(obs["messages"]):
         raise ValueError("fragmentizer log does not match the message list")
+    if len(obs["pre"]) != len(obs["messages"]):
+        raise ValueError("hook count does not match the message list")
     # an eof event is modelled by the wsproto contract (1006, no reason, CLOSED): check the observation agrees
     # (done in oracle under key wsproto-contract); the model input carries no events for it
     levs = clist([c_lev(l) for l in obs["levs"]], "levent")
@@ -573,8 +575,8 @@ def coq_case(case, obs):
     inj = clist([f"({cbool(l[2])}, {cbytes(unhx(l[3]))}, {clist([c_ev(e) for e in l[4]], 'wsevent')})"
                  for l in obs["levs"] if l[0] == "inj" and l[4] is not None], "(bool * bytes * list wsevent)")
     cmds = clist([c_cmd(c) for c in obs["cmds"]], "cmd")
-    msgs = clist([f"(mkO {cbool(m[0])} {cbool(m[1])} {cbytes(unhx(m[2]))} {cbool(m[3])} {cbool(m[4])} {clist([c_nat(x) for x in l], 'nat')})"
-                  for m, l in zip(obs["messages"], lens)], "omsg")
+    msgs = clist([f"(mkO {cbool(m[0])} {cbool(m[1])} {cbytes(unhx(m[2]))} {cbool(m[3])} {cbool(m[4])} {clist([c_nat(x) for x in l], 'nat')} {cbytes(unhx(p))})"
+                  for m, l, p in zip(obs["messages"], lens, obs["pre"])], "omsg")
     cl = obs["closed"]
     clt = "None" if cl is None else f"(Some ({cbool(cl[0])}, {cN(cl[1])}, {copt(cl[2], c_str, 'str')}))"
     return f"Sess {c_nat(case['fs'])} {levs} {post} {inj} {cmds} {msgs} {clt} {cbool(obs['crash'] is not None)} {cbool(obs['live'])}"
